@@ -91,6 +91,7 @@ type Thread struct {
 	PanicVal any
 	PanicStk string
 	Steps    int
+	prio     int // deprioritisation stamp: a preempted thread goes behind the others
 }
 
 type Dev struct {
@@ -129,6 +130,7 @@ type Sched struct {
 	StateHashes map[uint64]struct{}
 	Fingerprint func() uint64 // optional extra state for the per-step fingerprint
 	unmanagedGo int
+	prioCounter int
 	OnStep      func(s *Sched, st *Step)
 	// per-step idle info: names of threads neither parked nor done at each step
 	MaxThreads int
@@ -458,7 +460,12 @@ func (s *Sched) Run(main func()) {
 				en = append(en, t)
 			}
 		}
-		sort.Slice(en, func(i, j int) bool { return en[i].Name < en[j].Name })
+		sort.Slice(en, func(i, j int) bool {
+			if en[i].prio != en[j].prio {
+				return en[i].prio < en[j].prio
+			}
+			return en[i].Name < en[j].Name
+		})
 		lastEnabled := false
 		if s.last != nil {
 			for i, t := range en {
@@ -534,6 +541,11 @@ func (s *Sched) Run(main func()) {
 		}
 		if choice < len(en) {
 			t := en[choice]
+			if lastEnabled && choice > 0 {
+				// delay-bounding flavour: the preempted thread yields to everybody else
+				s.prioCounter++
+				en[0].prio = s.prioCounter
+			}
 			t.parked = false
 			t.Steps++
 			s.last = t
